@@ -670,7 +670,7 @@ def dist_describe(seed, cfgs):
 
 MASK_KINDS = {  # kind -> (tomogram, per-axis block index or ("beyond"|"neg"|"negbig"))
     "Z1a": (1, (0, 1, 2)), "Z1b": (1, (1, 2, 3)), "O1a": (1, (0, 2, 1)), "O1b": (1, (1, 1, 0)),
-    "BEYx": (1, ("beyond", 1, 2)), "BEYz": (1, (0, 1, "beyond")), "NEGx": (1, ("neg", 2, 3)), "NEGBIGz": (1, (0, 1, "negbig")),
+    "BEYx": (1, ("beyond", 1, 2)), "BEYy": (1, (0, "beyond", 2)), "BEYz": (1, (0, 1, "beyond")), "NEGx": (1, ("neg", 2, 3)), "NEGBIGz": (1, (0, 1, "negbig")),
     "P2a": (2, (1, 0, 1)), "P2b": (2, (2, 1, 0)), "P2c": (2, (0, 1, 2)),
     "U3": (3, (0, 1, 2)),
 }
@@ -698,6 +698,7 @@ def mask_blocks(seed):
     b1[1, 0, 1] = 1   # P2a under the mask of tomogram 1
     b1[0, 1, 3] = 0   # the voxel BEYz / NEGBIGz would read if their z were clipped or wrapped
     b1[1, 1, 2] = 0   # the voxel BEYx would read if its x were clipped
+    b1[0, 2, 2] = 0   # the voxel BEYy would read if its y were clipped (y = 11 is beyond 9 but below the z edge 12)
     b2 = base(BLOCKS2, 1)
     b2[1, 0, 1] = 0   # P2a under its own mask
     b2[2, 1, 0] = 0   # P2b under its own mask (beyond the volume of mask 1)
